@@ -6,8 +6,10 @@ import (
 	"context"
 	"errors"
 	"fmt"
+	"google.golang.org/grpc/encoding"
 	"io"
 	"os"
+	"sort"
 	"strconv"
 	"strings"
 	"sync"
@@ -146,6 +148,143 @@ func (c c24Creds) GetRequestMetadata(context.Context, ...string) (map[string]str
 }
 func (c24Creds) RequireTransportSecurity() bool { return false }
 
+// ---------------------------------------------------------------- scripted compressors, real echo server
+
+// Two registered pass-through compressors: the client compresses requests with
+// c24zc, the real server answers with c24zs (grpc.SetSendCompressor), so a
+// failure point "<name>.<op>" pins down the side and direction:
+// c24zc.{compress,write,close} = client send, c24zc.{decompress,read} = server
+// receive, c24zs.{compress,write,close} = server send, c24zs.{decompress,read} =
+// client receive.
+type c24Compressor struct{ name string }
+
+var (
+	c24ZMu    sync.Mutex
+	c24ZFail  string         // "<name>.<op>" that fails in the current bubble ("" = none)
+	c24ZCalls map[string]int // "<name>.<op>" -> calls in the current bubble
+)
+
+func c24ZHit(name, op string) error {
+	c24ZMu.Lock()
+	defer c24ZMu.Unlock()
+	if c24ZCalls != nil {
+		c24ZCalls[name+"."+op]++
+	}
+	if c24ZFail == name+"."+op {
+		return fmt.Errorf("scripted compressor failure in %s.%s", name, op)
+	}
+	return nil
+}
+
+func (c c24Compressor) Name() string { return c.name }
+func (c c24Compressor) Compress(w io.Writer) (io.WriteCloser, error) {
+	if err := c24ZHit(c.name, "compress"); err != nil {
+		return nil, err
+	}
+	return &c24ZWriter{w: w, name: c.name}, nil
+}
+func (c c24Compressor) Decompress(r io.Reader) (io.Reader, error) {
+	if err := c24ZHit(c.name, "decompress"); err != nil {
+		return nil, err
+	}
+	return &c24ZReader{r: r, name: c.name}, nil
+}
+
+type c24ZWriter struct {
+	w    io.Writer
+	name string
+}
+
+func (z *c24ZWriter) Write(p []byte) (int, error) {
+	if err := c24ZHit(z.name, "write"); err != nil {
+		return 0, err
+	}
+	return z.w.Write(p)
+}
+func (z *c24ZWriter) Close() error { return c24ZHit(z.name, "close") }
+
+type c24ZReader struct {
+	r     io.Reader
+	name  string
+	reads int
+}
+
+func (z *c24ZReader) Read(p []byte) (int, error) {
+	z.reads++
+	if z.reads == 1 && len(p) > 3 {
+		p = p[:3] // hand out a few bytes first: the failure then comes mid-stream
+		return z.r.Read(p)
+	}
+	if err := c24ZHit(z.name, "read"); err != nil {
+		return 0, err
+	}
+	return z.r.Read(p)
+}
+
+func init() {
+	encoding.RegisterCompressor(c24Compressor{"c24zc"})
+	encoding.RegisterCompressor(c24Compressor{"c24zs"})
+	encoding.RegisterCodecV2(c24Codec{}) // the real server needs the codec by content-subtype
+}
+
+var c24CompressItems = []string{
+	"none",
+	"c24zc.compress", "c24zc.write", "c24zc.close", "c24zc.decompress", "c24zc.read",
+	"c24zs.compress", "c24zs.write", "c24zs.close", "c24zs.decompress", "c24zs.read",
+	"server-marshal-error", "server-unmarshal-error",
+}
+
+// c24EchoServer is a real grpc.Server whose handler echoes every message,
+// compressing its responses with c24zs.
+type c24EchoServer struct {
+	srv  *grpc.Server
+	lis  *wire.Listener
+	mu   sync.Mutex
+	errs []string // errors the handler got from ServerStream.RecvMsg/SendMsg (reported, not judged)
+}
+
+func c24NewEchoServer(item string) *c24EchoServer {
+	e := &c24EchoServer{lis: wire.NewListener()}
+	note := func(op string, err error) {
+		e.mu.Lock()
+		_, isStatus := status.FromError(err)
+		e.errs = append(e.errs, fmt.Sprintf("%s: %v (status=%v)", op, err, isStatus))
+		e.mu.Unlock()
+	}
+	e.srv = grpc.NewServer(grpc.UnknownServiceHandler(func(_ any, ss grpc.ServerStream) error {
+		if err := grpc.SetSendCompressor(ss.Context(), "c24zs"); err != nil {
+			note("SetSendCompressor", err)
+		}
+		for {
+			var m []byte
+			var err error
+			if item == "server-unmarshal-error" {
+				err = ss.RecvMsg(new(int))
+			} else {
+				err = ss.RecvMsg(&m)
+			}
+			if err == io.EOF {
+				return nil
+			}
+			if err != nil {
+				note("RecvMsg", err)
+				return err
+			}
+			if item == "server-marshal-error" {
+				err = ss.SendMsg(42)
+			} else {
+				err = ss.SendMsg(m)
+			}
+			if err != nil {
+				note("SendMsg", err)
+				return err
+			}
+		}
+	}))
+	go e.srv.Serve(e.lis)
+	return e
+}
+
 // ---------------------------------------------------------------- item lists
 
 var c24DialerItems = []string{"err-plain", "err-status-notfound", "err-eof", "err-ctx-deadline", "hang", "close-immediately", "http1-reply", "first-frame-not-settings", "silent-server"}
@@ -203,6 +342,11 @@ func c24Cases(thorough bool) []c24Case {
 					out = append(out, c24Case{Source: "wire", Item: item, Phase: ph, API: api, WFR: wfr})
 				}
 			}
+		}
+	}
+	for _, item := range c24CompressItems {
+		for _, api := range apis {
+			out = append(out, c24Case{Source: "compress", Item: item, API: api})
 		}
 	}
 	for _, item := range c24ClientItems {
@@ -301,6 +445,27 @@ func c24RunInBubble(t *testing.T, c c24Case, res *c24Result) {
 		return c24ConnPlan{Settings: []http2.Setting{{ID: http2.SettingMaxConcurrentStreams, Val: 100}}}
 	}
 	parse := internal.ParseServiceConfig.(func(string) *serviceconfig.ParseResult)
+	var echo *c24EchoServer
+	if c.Source == "compress" {
+		c24ZMu.Lock()
+		c24ZFail, c24ZCalls = "", map[string]int{}
+		if strings.HasPrefix(c.Item, "c24z") {
+			c24ZFail = c.Item
+		}
+		c24ZMu.Unlock()
+		defer func() {
+			c24ZMu.Lock()
+			c24ZFail, c24ZCalls = "", nil
+			c24ZMu.Unlock()
+		}()
+		echo = c24NewEchoServer(c.Item)
+		defer func() {
+			echo.srv.Stop()
+			synctest.Wait()
+		}()
+		plan = func(int) c24ConnPlan { return c24ConnPlan{Listener: echo.lis} }
+		callOpts = append(callOpts, grpc.UseCompressor("c24zc"))
+	}
 	switch c.Source {
 	case "cfgsel":
 		c24StateHook = func(s resolver.State) resolver.State {
@@ -547,6 +712,25 @@ func c24RunInBubble(t *testing.T, c c24Case, res *c24Result) {
 		}
 	}
 	res.Outcome = c.Source + ": " + fc
+	if c.Source == "compress" {
+		c24ZMu.Lock()
+		var calls []string
+		for k, n := range c24ZCalls {
+			calls = append(calls, fmt.Sprintf("%s=%d", k, n))
+		}
+		c24ZMu.Unlock()
+		sort.Strings(calls)
+		echo.mu.Lock()
+		herrs := strings.Join(echo.errs, "; ")
+		echo.mu.Unlock()
+		res.Trace += fmt.Sprintf("[compressor calls: %s] [server handler errors: %s] ", strings.Join(calls, " "), herrs)
+		switch {
+		case c.Item == "none" && (finalErr != nil || len(calls) < 8):
+			res.Engine = fmt.Sprintf("script drift: compress/none: err=%v, compressor calls %v: both compressors must have been used in both directions; %s", finalErr, calls, rpc)
+		case c.Item != "none" && finalErr == nil:
+			res.Engine = fmt.Sprintf("script drift: %s: the scripted failure did not fail the RPC (calls %v); %s", c.Item, calls, rpc)
+		}
+	}
 	res.Trace += rpc.String()
 	if finalErr != nil {
 		res.Trace += fmt.Sprintf(" | first error: %q", finalErr)
@@ -688,9 +872,9 @@ func TestVerif_C24_Errors(t *testing.T) {
 	defer r.Finish()
 	r.Rule(P, fmt.Sprintf("one synctest bubble per case on a real ClientConn; cases = error source x item x {Invoke, NewStream/SendMsg x2/CloseSend/RecvMsg..} x {fail-fast, wait-for-ready}: "+
 		"control-plane sources {picker, config selector, config-selector interceptor, dial-level per-RPC creds, call-level per-RPC creds} x menu of %d errors (status codes 0..16, wrapped status 3/14, plain error, ErrNoSubConnAvailable [picker: followed by a good picker], io.EOF, io.ErrUnexpectedEOF, context.Canceled, context.DeadlineExceeded); "+
-		"%d dialer faults on real pick_first; %d raw-server faults (close, 15 RST_STREAM codes, GOAWAY variants, trailers with 23 grpc-status values, malformed headers/trailers/DATA, connection-level protocol violations) at 3 RPC phases (before any response / after response headers / after one response message), depth 1; %d client-side error sources. "+
+		"%d dialer faults on real pick_first; %d raw-server faults (close, 15 RST_STREAM codes, GOAWAY variants, trailers with 23 grpc-status values, malformed headers/trailers/DATA, connection-level protocol violations) at 3 RPC phases (before any response / after response headers / after one response message), depth 1; %d client-side error sources; %d codec/compressor cases against a real echo server (registered pass-through compressors failing in Compress/Write/Close/Decompress/Read on client send, server receive, server send, client receive; server-side Marshal/Unmarshal failures). "+
 		"Every error returned by every API call is checked. A case is non-trivial when at least one non-nil, non-EOF error was returned to the application (distinct by case)",
-		len(c24Menu()), len(c24DialerItems), len(c24WireItems()), len(c24ClientItems)))
+		len(c24Menu()), len(c24DialerItems), len(c24WireItems()), len(c24ClientItems), len(c24CompressItems)))
 	r.Assume(P, "legal code = status.FromError ok and code in the 17 defined codes, or the very grpc-status number the peer sent (the gRPC spec allows propagating unknown codes); a non-nil error whose GRPCStatus says OK (only constructible by a custom error type, menu item status:0) is tallied as an outcome, not judged")
 	r.Assume(P, "the gRFC A54 oracle (7 restricted codes => INTERNAL, other codes preserved) is applied to picker, config-selector and per-RPC-credentials status errors, including status errors wrapped with %w; interceptor/dialer/transport errors are only required to be statuses")
 	r.Assume(P, "testing/synctest quiescence; every RPC carries a 1 s deadline so that blocking (wait-for-ready) paths terminate; depth-1 faults only (one fault per history)")
@@ -754,7 +938,7 @@ func c24Evaluate(r *vk.Run, c c24Case) {
 	r.Outcome(P, res.Outcome)
 	r.AddInt(P, "errors_checked", int64(res.NErrs))
 	switch c.String() {
-	case "picker/status:3/unary/ff", "cfgsel/status:9/stream/wfr", "creds-call/plain/unary/ff", "wire/rst:7@p0/unary/ff", "wire/trl:grpc-status=99@p1/stream/ff", "dialer/http1-reply/unary/ff":
+	case "compress/c24zc.close/unary/ff", "compress/c24zs.read/stream/ff", "picker/status:3/unary/ff", "cfgsel/status:9/stream/wfr", "creds-call/plain/unary/ff", "wire/rst:7@p0/unary/ff", "wire/trl:grpc-status=99@p1/stream/ff", "dialer/http1-reply/unary/ff":
 		r.Sample(P, map[string]any{"case": c, "name": c.String(), "outcome": res.Outcome, "trace": res.Trace})
 	}
 }
